@@ -46,6 +46,11 @@ struct Config
 	bool keep_trace = false;
 };
 
+// Create the kernel's thread-exit key. Call once, outside any world, AFTER every library whose thread-specific-data
+// destructors must run under the scheduler has created its own key (glibc runs destructors in key order): a finishing
+// task then hands the baton on only from this key's destructor, i.e. after those destructors have run.
+void init_thread_exit_key();
+
 // world lifecycle (called by the driver task = the calling thread)
 void begin(const Config& cfg);
 void end();                         // all other tasks must be DONE (else they are abandoned and reported)
